@@ -114,11 +114,21 @@ def fatal_signature(stderr_text):
     kind = "fatal" if head.startswith("fatal error") else "panic"
     msg = head.split(": ", 1)[1]
     msg = re.sub(r"\d+", "N", msg)[:80]
-    frame = "?"
-    for line in tail.splitlines():
+    # only the crashing goroutine's stack (the first block after the message) decides
+    # whether go-dblib code is involved; a crash in harness-only frames is a harness fault
+    blocks = tail.split("\n\n")
+    crash = ""
+    for b in blocks:
+        if b.lstrip().startswith("goroutine "):
+            crash = b
+            break
+    frame = None
+    for line in crash.splitlines():
         if line.startswith("github.com/SAP/go-dblib/"):
             frame = re.sub(r"\(.*$", "", line).replace("github.com/SAP/go-dblib/", "")
             break
+    if frame is None:
+        return None, tail[:6000]
     return "%s/%s/%s" % (kind, frame, msg), tail[:6000]
 
 
@@ -172,6 +182,9 @@ def run_leg(prop, tier, seed, leg, bins, logdir):
             if line.startswith("CASE "):
                 last_case = line[5:]
         sig, tail = fatal_signature(errtxt)
+        if sig is None and tail is not None:
+            inconcl.append("leg %s batch %d: worker crashed in harness code (no go-dblib frame on the crashing goroutine), last case %s; see %s" % (leg["name"], b, last_case, errf))
+            continue
         if rc == 124 or "SIGQUIT" in errtxt:
             inconcl.append("leg %s batch %d: watchdog fired after %ds (last case: %s); see %s" % (leg["name"], b, timeout, last_case, errf))
         elif sig:
